@@ -146,3 +146,25 @@ def printable():
     check("InstructionExecutionException", type(r) is str)
     r = StepSequenceError("first before second").__repr__()
     check("StepSequenceError", type(r) is str)
+
+
+@unit("C15/assembler-errors-carry-line-and-print")
+def parser_errors_printable():
+    """every assembler error class keeps the line number and text it is given and prints a message that names the line"""
+    from architecture_simulator.isa import parser_exceptions as PE
+    n = [1, 57, 1204][split(sym_int("which_line", 0, 2))]
+    two = [PE.ParserSyntaxException, PE.ParserOddImmediateException, PE.ParserDirectiveException, PE.ParserDataSyntaxException]
+    for cls in two:
+        e = cls(n, "the line")
+        check(cls.__name__ + "_fields", e.line_number == n and e.line == "the line")
+        check(cls.__name__ + "_prints_the_line_number", str(n) in e.__repr__())
+    three = [(PE.ParserLabelException, "label"), (PE.DuplicateLabelException, "label"), (PE.ParserDataDuplicateException, "name"), (PE.ParserVariableException, "name")]
+    for cls, f in three:
+        e = cls(n, "the line", "foo")
+        check(cls.__name__ + "_fields", e.line_number == n and e.line == "the line" and getattr(e, f) == "foo")
+        r = e.__repr__()
+        check(cls.__name__ + "_prints_the_line_number_and_the_name", str(n) in r and "foo" in r)
+        e2 = cls(line_number=n, line="the line", **{f: "foo"})
+        check(cls.__name__ + "_keywords", e2.line_number == n and e2.line == "the line" and getattr(e2, f) == "foo")
+    m = PE.MemorySizeException(sym_int("words", 0))
+    check("MemorySizeException_prints", type(m.__repr__()) is str)
